@@ -34,6 +34,19 @@ def isDeviated (bp : Int) (old new : Nat) : Bool :=
   if old = 0 then decide (new ≠ 0)
   else decide (bp * (old : Int) ≤ ((if new ≥ old then new - old else old - new : Nat) : Int) * 10000)
 
+/-- `isDeviated` as the Go code computes it (since fix 85b41e0): the 128-bit product `diff·10000` as (hi, lo) of
+    `bits.Mul64`, "above any threshold" when the quotient would not fit 64 bits, else `bits.Div64` -/
+def isDeviatedGo (bp : Int) (old new : Nat) : Bool :=
+  if old = 0 then decide (new ≠ 0)
+  else
+    let diff := if new < old then old - new else new - old
+    let hi := diff * 10000 / 18446744073709551616
+    let lo := diff * 10000 % 18446744073709551616
+    if hi ≥ old then true
+    else
+      let dev := (hi * 18446744073709551616 + lo) / old
+      decide (bp ≤ 0) || decide (bp.toNat ≤ dev)
+
 /-- `calculateAssignedTime`: `h` is the validator/timestamp hash reduced to uint64 -/
 def assignedTime (h : Nat) (interval ts : Int) (dpOffset dpStart : Nat) : Int :=
   ts + interval * ((h % dpOffset + dpStart : Nat) : Int) / 100
@@ -82,5 +95,28 @@ def signalRound (s : Flight) (allSignals : List String) (chosen : String → Boo
 /-- the submitter finishes a submission (any outcome): `defer removePending` -/
 def finish (s : Flight) (sub : List String) : Flight :=
   { pending := s.pending.filter fun x => !sub.contains x, inFlight := s.inFlight.erase sub }
+
+/-! ### the multi-node query helper (`grogu/querier/utils.go: getMaxBlockHeightResponse`) -/
+
+/-- the answer with the greatest block height among the nodes that answered (a height of 0 is never taken) -/
+def bestHeight (answers : List (Option Nat)) : Nat :=
+  answers.foldl (fun acc a => match a with | some h => max acc h | none => acc) 0
+
+/-- one query: `maxH` is the greatest height returned so far (shared by all queries of the daemon).  Returns the new
+    maximum and the height of the returned answer, `none` when nothing is returned (no usable answer, or the best
+    answer is older than one returned before) -/
+def queryStep (maxH : Nat) (answers : List (Option Nat)) : Nat × Option Nat :=
+  let h := bestHeight answers
+  if h = 0 then (maxH, none)
+  else if h < maxH then (maxH, none)
+  else (h, some h)
+
+/-- the heights of the answers returned over a run of queries -/
+def queryRun : Nat → List (List (Option Nat)) → List Nat
+  | _, [] => []
+  | maxH, a :: rest =>
+    match queryStep maxH a with
+    | (m, some h) => h :: queryRun m rest
+    | (m, none) => queryRun m rest
 
 end BandVerif.Grogu
